@@ -68,7 +68,7 @@ BATCH = 4
 # trails keep the old `metaEnv` (observed, see the final report of this check).  This is judged as "trail of the
 # invocation that produced the result" (label stale-metaenv-...).  Set to True to demand the final state's values for
 # every trail; the matcher in FINDINGS then identifies exactly these failures.
-STRICT_METAENV = False
+STRICT_METAENV = True
 
 # ---------------------------------------------------------------------------------------
 # independent re-implementations
@@ -314,7 +314,7 @@ def render(model, root, urlbase, archive=None, share=None, git=None):
 # the step graph of a project through a fresh in-process parse with the develop directory assignment
 
 class Info:
-    __slots__ = ("ws", "label", "vid", "recipe", "pkgname", "pkgnames", "metaenv", "lang", "args", "tools", "sandbox", "step", "stacks")
+    __slots__ = ("ws", "label", "vid", "recipe", "pkgname", "pkgnames", "metaenvs", "envs", "lang", "args", "tools", "sandbox", "step", "stacks")
 
 class Graph:
     def __init__(self):
@@ -331,7 +331,7 @@ class Graph:
         pkg = step.getPackage()
         i.ws, i.label, i.vid = ws, step.getLabel(), step.getVariantId().hex()
         i.recipe, i.pkgname = pkg.getRecipe().getName(), pkg.getName()
-        i.metaenv = dict(pkg.getMetaEnv())
+        i.metaenvs, i.envs = [], []
         i.lang = pkg.getRecipe().scriptLanguage.index.value
         i.step, i.stacks, i.pkgnames = step, set(), {pkg.getName()}
         self.steps[ws] = i
@@ -340,6 +340,10 @@ class Graph:
         sb = step.getSandbox()
         i.sandbox = self.info(sb.getStep()).ws if sb is not None else None
         return i
+    def finish(self):
+        for i in self.steps.values():
+            if not i.metaenvs: i.metaenvs.append(dict(i.step.getPackage().getMetaEnv()))
+            if not i.envs: i.envs.append(dict(i.step.getEnv()))
     def deps(self, i):
         return list(i.args) + [w for _, w in sorted(i.tools.items())] + ([i.sandbox] if i.sandbox else [])
     def close(self):
@@ -389,8 +393,12 @@ def load_graph(project, defines):
                         # (identical variants of one recipe - e.g. two multiPackages - share one workspace)
                         inf = g.info(s)
                         inf.stacks.add("/".join(stack)); inf.pkgnames.add(pkg.getName())
+                        me, env = dict(pkg.getMetaEnv()), dict(s.getEnv())
+                        if me not in inf.metaenvs: inf.metaenvs.append(me)
+                        if env not in inf.envs: inf.envs.append(env)
                 if stack == ("r0",):
                     g.root = g.info(pkg.getPackageStep()).ws
+            g.finish()
         except BobError:
             g.close()
             return None
@@ -428,7 +436,8 @@ class Hist:
             k = (i.recipe, i.label, i.vid)
             self.stacks.setdefault(k, set()).update(i.stacks)
             l = self.metaenv.setdefault(k, [])
-            if i.metaenv not in l: l.append(i.metaenv)
+            for me in i.metaenvs:
+                if me not in l: l.append(me)
 
 def audit_files(project):
     """{audit path relative to project: (mtime_ns, ino, size)}"""
@@ -647,17 +656,18 @@ def check_project(ctx, case, tag, project, g, hist, before, foreign, metadefs, m
                 fail("meta-wrong", "%s: meta.package %r never was a package path of this variant (%r)" %
                      (what, meta["package"], sorted(hist.stacks.get(key, ()))[:6]))
         me = art.get("metaEnv", {})
+        # (packages of one recipe whose steps are identical share the workspace; their meta variables may differ)
         if fresh and not is_foreign:
-            if me != i.metaenv:
-                fail("metaenv-wrong", "%s: written by the last invocation with metaEnv %r, the package has %r" % (what, me, i.metaenv))
-        elif me != i.metaenv:
+            if me not in i.metaenvs:
+                fail("metaenv-wrong", "%s: written by the last invocation with metaEnv %r, the package has %r" % (what, me, i.metaenvs))
+        elif me not in i.metaenvs:
             if me in hist.metaenv.get(key, ()):
                 ctx.label("stale-metaenv-of-skipped-or-foreign-step")
                 if STRICT_METAENV and not is_foreign:
                     fail("metaenv-stale-after-metadata-only-edit", "%s: metaEnv %r is the value of an earlier state, the package now "
-                         "has %r (no step was re-executed)" % (what, me, i.metaenv))
+                         "has %r (no step was re-executed)" % (what, me, i.metaenvs))
             else:
-                fail("metaenv-wrong", "%s: metaEnv %r, the package has %r (earlier states: %r)" % (what, me, i.metaenv, hist.metaenv.get(key)))
+                fail("metaenv-wrong", "%s: metaEnv %r, the package has %r (earlier states: %r)" % (what, me, i.metaenvs, hist.metaenv.get(key)))
         if not is_foreign:
             for k, v in metadefs.items():
                 if k in ("bob", "recipe", "package", "step", "language"):
@@ -676,7 +686,8 @@ def check_project(ctx, case, tag, project, g, hist, before, foreign, metadefs, m
             if not unexecuted_src:
                 if "declare -" not in art["env"]:
                     fail("env-wrong", "%s: env is not a `declare -p` dump: %r" % (what, art["env"][:80]))
-                for k, v in sorted(dict(i.step.getEnv()).items()):
+                common = set(i.envs[0].items()).intersection(*[set(e.items()) for e in i.envs[1:]])
+                for k, v in sorted(common):
                     if PLAIN.match(v) and ('declare -x %s="%s"\n' % (k, v)) not in art["env"]:
                         fail("env-wrong", "%s: the step exports %s=%r, not found in the recorded environment" % (what, k, v))
         # (6) SCM records
